@@ -68,6 +68,7 @@ type c14Scenario struct {
 	verbose bool
 	tbCtx   bool // the underlying TB has a Context() method of its own (testing.T since Go 1.24): T.Context derives from it
 	late    bool // the workers are not joined by the property body but by a Cleanup function ("cleanup waits for workers")
+	nested  int  // > 0: the workers are started inside a Custom generator function nested that many levels deep and call the methods of ITS T (they go on after the function has returned)
 }
 
 func c14Scenarios(quick bool) []c14Scenario {
@@ -91,6 +92,9 @@ func c14Scenarios(quick bool) []c14Scenario {
 		{name: "Errorf|Cleanup while the property's goroutine is inside Repeat", threads: [][]string{{"Errorf"}, {"Cleanup"}}, mainOps: []string{"Repeat", "Failed"}},
 		{name: "late workers: Cleanup+Cleanup|Cleanup joined by a cleanup", threads: [][]string{{"Cleanup", "Cleanup"}, {"Cleanup"}}, mainOps: []string{"Cleanup", "Cleanup"}, late: true},
 		{name: "late workers: Cleanup+Context|Errorf joined by a cleanup", threads: [][]string{{"Cleanup", "Context"}, {"Errorf"}}, mainOps: []string{"Cleanup"}, late: true},
+		{name: "Errorf|Failed on the T of a Custom generator function", threads: [][]string{{"Errorf"}, {"Failed"}}, nested: 1},
+		{name: "Errorf|Fail+Failed|Log on the T of a Custom generator function nested two deep", threads: [][]string{{"Errorf"}, {"Fail", "Failed"}, {"Log"}}, nested: 2, mainOps: []string{"Draw"}},
+		{name: "Error|Failed on the T of a Custom generator function nested three deep", threads: [][]string{{"Error"}, {"Failed"}}, nested: 3},
 		{name: "CleanupErrorfSpawn|Cleanup: failure from a goroutine started by a cleanup", threads: [][]string{{"CleanupErrorfSpawn"}, {"Cleanup"}}},
 		{name: "CleanupErrorfSpawn|CleanupSpawn|Context", threads: [][]string{{"CleanupErrorfSpawn"}, {"CleanupSpawn"}, {"Context"}}},
 	}
@@ -238,13 +242,18 @@ func c14Units(tier string, seed int64) []Unit {
 								}
 							})
 						}
-						for i, ops := range sc.threads {
-							i, ops := i, ops
-							hs = append(hs, vsync.Go(func() {
-								for _, op := range ops {
-									r.do(t, i+1, op)
-								}
-							}))
+						spawn := func(tt *rapid.T) {
+							for i, ops := range sc.threads {
+								i, ops := i, ops
+								hs = append(hs, vsync.Go(func() {
+									for _, op := range ops {
+										r.do(tt, i+1, op)
+									}
+								}))
+							}
+						}
+						if sc.nested == 0 {
+							spawn(t)
 						}
 						if !sc.late {
 							// joined even when the property's own goroutine is stopped by a failure (e.g. inside Repeat)
@@ -253,6 +262,22 @@ func c14Units(tier string, seed int64) []Unit {
 									h.Join()
 								}
 							}()
+						}
+						if sc.nested > 0 {
+							started := false
+							g := rapid.Custom(func(it *rapid.T) int {
+								v := rapid.IntRange(0, 3).Draw(it, "v")
+								if !started {
+									started = true
+									spawn(it)
+								}
+								return v
+							})
+							for k := 1; k < sc.nested; k++ {
+								inner := g
+								g = rapid.Custom(func(it *rapid.T) int { return inner.Draw(it, "inner") })
+							}
+							g.Draw(t, "nested")
 						}
 						for _, op := range sc.mainOps {
 							r.do(t, 0, op)
